@@ -312,6 +312,30 @@ func (t *sqlTr) body(stmts []ast.Stmt) string {
 			return "(.letStr " + leanStr(v.Name) + " " + e + " " + t.body(stmts[1:]) + ")"
 		}
 	case *ast.IfStmt:
+		// if _, ok := x.F.(*T); ok { v += "lit" }; rest     (v a local string)  ==>  v := v + strOpt(kidKindIs F T, "lit"); rest
+		if as, ok := s.Init.(*ast.AssignStmt); ok && s.Else == nil && len(s.Body.List) == 1 && len(stmts) > 1 && len(as.Lhs) == 2 && len(as.Rhs) == 1 {
+			okVar, isOk := as.Lhs[1].(*ast.Ident)
+			ta, isTA := as.Rhs[0].(*ast.TypeAssertExpr)
+			cond, condIsIdent := s.Cond.(*ast.Ident)
+			if isOk && isTA && condIsIdent && cond.Name == okVar.Name && isIdent(as.Lhs[0], "_") {
+				if f, ok := t.fieldOf(ta.X); ok {
+					if star, ok := ta.Type.(*ast.StarExpr); ok {
+						if kind, ok := star.X.(*ast.Ident); ok {
+							if inc, ok := s.Body.List[0].(*ast.AssignStmt); ok && inc.Tok == token.ADD_ASSIGN && len(inc.Lhs) == 1 && len(inc.Rhs) == 1 {
+								if v, ok := inc.Lhs[0].(*ast.Ident); ok && t.locals[v.Name] {
+									if bl, ok := inc.Rhs[0].(*ast.BasicLit); ok && bl.Kind == token.STRING {
+										lit, _ := strconv.Unquote(bl.Value)
+										if f.cls == "node" && isASCIIText(lit) {
+											return "(.letStr " + leanStr(v.Name) + " (.cat (.local " + leanStr(v.Name) + ") (.strOpt (.kidKindIs " + leanStr(f.name) + " " + leanStr(kind.Name) + ") (.lit " + leanStr(lit) + "))) " + t.body(stmts[1:]) + ")"
+										}
+									}
+								}
+							}
+						}
+					}
+				}
+			}
+		}
 		// if c { return a }; rest
 		if s.Init == nil && s.Else == nil && len(s.Body.List) == 1 && len(stmts) > 1 {
 			if ret, ok := s.Body.List[0].(*ast.ReturnStmt); ok && len(ret.Results) == 1 {
@@ -778,4 +802,13 @@ func readParen(fd *ast.FuncDecl) (cmp, open, close string) {
 		return
 	}
 	return cmp, lo, rc
+}
+
+func isASCIIText(s string) bool {
+	for i := 0; i < len(s); i++ {
+		if s[i] >= 0x80 {
+			return false
+		}
+	}
+	return true
 }
